@@ -9,6 +9,9 @@ SRC="$1"; NAME="$2"
 W=/tmp/vs_work/$NAME
 export CARGO_TARGET_DIR=/tmp/vs_work/target
 export CARGO_NET_OFFLINE=true
+export CARGO_INCREMENTAL=0
+export CARGO_PROFILE_DEV_DEBUG=0
+export CARGO_PROFILE_TEST_DEBUG=0
 mkdir -p /tmp/vs_work
 git -C /repo worktree remove --force "$W" >/dev/null 2>&1
 rm -rf "$W"
@@ -67,3 +70,7 @@ ok=false
 if [ "$fails" -ge 2 ] && [ "$passes" -eq 3 ] && [ -z "$FAILED" ] && echo "$SUITE" | grep -q "586 passed"; then ok=true; fi
 res true true "$fails/3" "${SUITE:-none} extra_failed=[${FAILED}]" "$passes/3" $ok
 cleanup
+# keep the shared scratch target small: drop the (huge, fault-specific) test executables and examples
+rm -rf "$CARGO_TARGET_DIR/debug/examples" 2>/dev/null
+find "$CARGO_TARGET_DIR/debug/deps" -maxdepth 1 -type f ! -name '*.*' -delete 2>/dev/null
+find "$CARGO_TARGET_DIR/debug/deps" -maxdepth 1 -type f \( -name 'librustrtc-*' -o -name 'rustrtc-*' \) -delete 2>/dev/null
